@@ -33,7 +33,7 @@
 (*   ztol             path uncertainty admitted by iteratively intersected      *)
 (*                    surfaces (see ChiefZero); 0 for closed-form lenses         *)
 (*   irep, iown       intensity reported with the OPD / recorded by the trace  *)
-EXTENDS Vec
+EXTENDS Vec, FiniteSets
 
 CERTBITS == 44    \* certificate on the sphere: |q(t)| <= 2^-44 |dq/dt| L  (t is right to 2^-44 L)
 OPDBITS  == 40    \* path identity: residual <= 2^-40 of the summed term magnitudes (+ 2 ztol)
@@ -165,7 +165,20 @@ JudgeOpdiff(e) ==
            slack == DAdd(DShift(DAdd(DAbs(lhs), rhs), -36), DShift(DMul(DInt(n), SumAbs(e.opds)), -40))
        IN IF Len(e.ws) = n /\ IsFin(e.val) /\ DLe(DAbs(DSub(lhs, rhs)), slack) THEN {} ELSE {"opd_difference"}
 
-Judge(e) == CASE e.kind = "ray" -> JudgeSample(e)
+\* The documented pupil samples of a view: hexapolar with n rings has 1 + 3 n (n + 1) points,
+\* a uniform n x n grid keeps the points with x_i^2 + y_j^2 <= 1 (x_i = -1 + 2 (i-1)/(n-1)),
+\* a random sampling has n points.  e.n is the ray count the caller asked for, e.npts the number
+\* of pupil points the view actually used.
+UniformCount(n) == IF n = 1 THEN 1
+                   ELSE Cardinality({<<i, j>> \in (1..n) \X (1..n) :
+                                       (2*i - n - 1) * (2*i - n - 1) + (2*j - n - 1) * (2*j - n - 1) <= (n - 1) * (n - 1)})
+JudgeCount(e) ==
+  LET want == CASE e.dist = "hexapolar" -> 1 + 3 * e.n * (e.n + 1)
+                [] e.dist = "uniform" -> UniformCount(e.n)
+                [] OTHER -> e.n
+  IN IF e.npts = want THEN {} ELSE {"documented_samples"}
+Judge(e) == CASE e.kind = "count" -> JudgeCount(e)
+              [] e.kind = "ray" -> JudgeSample(e)
               [] e.kind = "rms" -> JudgeRms(e)
               [] e.kind = "opdiff" -> JudgeOpdiff(e)
               [] OTHER -> {"unknown_event_kind"}
